@@ -116,3 +116,80 @@ def layout(src,kind):
         return "".join(out).encode()
     if kind=="unicode": return ("# -*- coding: utf-8 -*-\nNOTE = 'héllo wörld ✓'\n"+src).encode() if not src.startswith("from __future__") else src.encode()
     raise ValueError(kind)
+
+# ---------------------------------------------------------------------------------------------------------------------------
+# call / statement layout variants (libcst used as a GENERATOR tool only; oracles never use libcst)
+class _TrailingComma(cst.CSTTransformer):
+    """f(a, b) -> f(a, b,)   (one-line, magic trailing comma)"""
+    def leave_Call(self, o, u):
+        if not u.args: return u
+        last = u.args[-1]
+        if last.star == "**" or isinstance(last.comma, cst.Comma): return u if isinstance(last.comma, cst.Comma) else u.with_changes(args=[*u.args[:-1], last.with_changes(comma=cst.Comma())])
+        return u.with_changes(args=[*u.args[:-1], last.with_changes(comma=cst.Comma())])
+
+class _Explode(cst.CSTTransformer):
+    """black-style exploded call: one argument per line, trailing comma, closing paren on its own line"""
+    def __init__(self, comments=False): self.depth = 0; self.comments = comments
+    def visit_Call(self, n): self.depth += 1
+    def leave_Call(self, o, u):
+        self.depth -= 1
+        if not u.args or self.depth > 0: return u      # only outermost calls: nested explosion makes indentation ambiguous
+        ind = "    "
+        def nl(last=False, k=0):
+            return cst.ParenthesizedWhitespace(first_line=cst.TrailingWhitespace(whitespace=cst.SimpleWhitespace("  " if self.comments else ""), comment=cst.Comment(f"# vf arg {k}") if self.comments else None, newline=cst.Newline()),
+                                                 indent=True, last_line=cst.SimpleWhitespace("" if last else ind))
+        args = []
+        for k, a in enumerate(u.args):
+            args.append(a.with_changes(comma=cst.Comma(whitespace_after=nl(last=(k == len(u.args) - 1), k=k)), whitespace_after_arg=cst.SimpleWhitespace("")))
+        return u.with_changes(args=args, whitespace_before_args=cst.ParenthesizedWhitespace(first_line=cst.TrailingWhitespace(newline=cst.Newline()), indent=True, last_line=cst.SimpleWhitespace(ind)))
+
+def _try(src, transformer):
+    try:
+        out = cst.parse_module(src).visit(transformer).code
+        compile(out, "<layout>", "exec")
+        return out if out != src else None
+    except Exception:
+        return None
+
+def trailing_comma(src): return _try(src, _TrailingComma())
+def exploded_calls(src): return _try(src, _Explode())
+def exploded_calls_with_comments(src): return _try(src, _Explode(comments=True))
+
+def semicolon_joined(src):
+    """join a simple statement line with the next simple statement line of the same indentation: `a = 1; f(a)`"""
+    try: tree = ast.parse(src)
+    except SyntaxError: return None
+    lines = src.splitlines(keepends=True); joined = False
+    def simple(n): return not hasattr(n, "body") and n.lineno == n.end_lineno and not isinstance(n, (ast.Import, ast.ImportFrom))
+    def walk(body):
+        nonlocal joined
+        for a, b in zip(body, body[1:]):
+            if simple(a) and simple(b) and b.lineno == a.lineno + 1 and a.col_offset == b.col_offset and not joined and "#" not in lines[a.lineno - 1] and not lines[a.lineno - 1].rstrip().endswith("\\"):
+                lines[a.lineno - 1] = lines[a.lineno - 1].rstrip("\r\n") + "; " + lines[b.lineno - 1].lstrip(); lines[b.lineno - 1] = ""; joined = True
+        for n in body:
+            for f in ("body", "orelse", "finalbody"):
+                sub = getattr(n, f, None)
+                if isinstance(sub, list) and sub and isinstance(sub[0], ast.stmt): walk(sub)
+    walk(tree.body)
+    if not joined: return None
+    out = "".join(lines)
+    try: compile(out, "<layout>", "exec")
+    except SyntaxError: return None
+    return out
+
+def backslash_continued(src):
+    """break the first long-enough simple assignment / expression line after its first ' = ' or '(' ... conservative: only `x = expr` lines"""
+    lines = src.splitlines(keepends=True)
+    for i, l in enumerate(lines):
+        m = re.match(r"^(\s*)([A-Za-z_][\w.]*) = (\S.*)$", l.rstrip("\r\n"))
+        if m and not m.group(3).startswith(("'", '"', "(", "[", "{")) and "#" not in l:
+            new = lines[:]; new[i] = f"{m.group(1)}{m.group(2)} = \\\n{m.group(1)}    {m.group(3)}\n"
+            out = "".join(new)
+            try: compile(out, "<layout>", "exec"); return out
+            except SyntaxError: continue
+    return None
+
+def form_feed(src):
+    return "\x0c\n" + src if not src.startswith("from __future__") else None
+
+CALL_LAYOUTS = {"trailing-comma": trailing_comma, "exploded": exploded_calls, "exploded-comments": exploded_calls_with_comments, "semicolon": semicolon_joined, "backslash": backslash_continued, "formfeed": form_feed}
